@@ -7,10 +7,10 @@ import "unsafe"
 // gate is the hand-off primitive between the scheduler and a thread.
 type gate struct{ c chan struct{} }
 
-func newGate() gate      { return gate{c: make(chan struct{}, 1)} }
-func (g gate) signal()   { g.c <- struct{}{} }
-func (g gate) wait()     { <-g.c }
-func (g gate) close()    {}
+func newGate() gate    { return gate{c: make(chan struct{}, 1)} }
+func (g gate) signal() { g.c <- struct{}{} }
+func (g gate) wait()   { <-g.c }
+func (g gate) close()  {}
 
 func raceAcquire(p unsafe.Pointer)      {}
 func raceRelease(p unsafe.Pointer)      {}
